@@ -414,7 +414,7 @@ def run_sorting(ctx, quick):
     pairs, meta = [], []
     for k in range(n):
         occ, virt = G.pool("o", 6), G.pool("v", 6)
-        spin = rng.random() < 0.2
+        spin = rng.random() < 0.4
         if spin:
             occ = get_symbols("ijklmn", "ababab")
             virt = get_symbols("abcdef", "ababab")
@@ -443,19 +443,21 @@ def run_sorting(ctx, quick):
                ("by_tensor_target_indices",
                 lambda x: sort_expr.by_tensor_target_indices(x, tname),
                 key_tensor_target_indices(tname))]
-        fname, fn, keyfn = rng.choice(fns)
-        try:
-            res = fn(E)
-        except Exception as ex:
-            ctx.violation(f"C10:sort-exception:{fname}:{k}",
-                          f"{fname} raised {ex!r}", {"expr": str(e)}, False)
-            continue
-        total = 0
-        for part in res.values():
-            total = total + getattr(part, "sympy", part)
-        pairs.append(EQ.Pair(Expr(total, target_idx=tg), E, tg,
-                             f"{fname}:{k}"))
-        meta.append((fname, tname, keyfn, res, E, tg))
+        # every sort function on every expression
+        for fname, fn, keyfn in fns:
+            try:
+                res = fn(E.copy())
+            except Exception as ex:
+                ctx.violation(f"C10:sort-exception:{fname}:{k}",
+                              f"{fname} raised {ex!r}", {"expr": str(e)},
+                              False)
+                continue
+            total = 0
+            for part in res.values():
+                total = total + getattr(part, "sympy", part)
+            pairs.append(EQ.Pair(Expr(total, target_idx=tg), E, tg,
+                                 f"{fname}:{k}"))
+            meta.append((fname, tname, keyfn, res, E, tg))
     # filter_tensor: kept + dropped == original
     filt = sys.modules["adcgen.simplify"].filter_tensor
     for k in range(n // 2):
